@@ -115,6 +115,46 @@ func runC15(c *kit.Ctx) {
 						okChunk = true
 					}
 				}
+				// the same minimum written out (a renamed helper is expanded into this): a value that is
+				// int(uncompressedLen) where uncompressedLen < ChunkLen() and int(ChunkLen()) otherwise
+				if ph, ok := kit.Strip(arg).(*ssa.Phi); ok && len(ph.Edges) == 2 {
+					under := func(v ssa.Value) ssa.Value {
+						if cv, ok := kit.Strip(v).(*ssa.Convert); ok {
+							return kit.Root(cv.X)
+						}
+						return kit.Root(v)
+					}
+					isChunk := func(v ssa.Value) bool {
+						cl, ok := v.(*ssa.Call)
+						return ok && kit.CalleeName(cl) == codec+"ChunkLen"
+					}
+					for i := 0; i < 2; i++ {
+						a, b := under(ph.Edges[i]), under(ph.Edges[1-i])
+						if a != ssa.Value(lenParam) || !isChunk(b) {
+							continue
+						}
+						// the edge that brings uncompressedLen is taken where uncompressedLen < (or <=) ChunkLen()
+						for _, f := range kit.EdgeFacts(ph.Block().Preds[i], ph.Block()) {
+							cmp, ok := kit.CanonCmp(f.Cond, f.Pol)
+							if !ok {
+								continue
+							}
+							x, y, op := kit.Root(cmp.X), kit.Root(cmp.Y), cmp.Op
+							if x == b && y == a {
+								x, y = y, x
+								switch op {
+								case token.GTR:
+									op = token.LSS
+								case token.GEQ:
+									op = token.LEQ
+								}
+							}
+							if x == a && y == b && (op == token.LSS || op == token.LEQ) {
+								okChunk = true
+							}
+						}
+					}
+				}
 			}
 			c.Check(okChunk, comp, "chunk-size", comp.Pos(), "chunks are at most min(uncompressedLen, codec.ChunkLen()) bytes", "the chunk buffer is no longer bounded by the codec's chunk length")
 		}
@@ -191,7 +231,15 @@ func runC15(c *kit.Ctx) {
 					neqAfterLoop := false
 					if cmp.Op == token.NEQ && inWeb(x) && kit.Same(y, blockLen) {
 						for _, f := range kit.FactsAt(iff.Block()) {
-							if fc, ok := kit.CanonCmp(f.Cond, f.Pol); ok && fc.Op == token.GEQ && inWeb(kit.Root(fc.X)) && kit.Same(kit.Root(fc.Y), blockLen) {
+							fc, ok := kit.CanonCmp(f.Cond, f.Pol)
+							if !ok {
+								continue
+							}
+							if fc.Op == token.GEQ && inWeb(kit.Root(fc.X)) && kit.Same(kit.Root(fc.Y), blockLen) {
+								neqAfterLoop = true
+							}
+							// the same fact written from the other side: blockLen <= sum
+							if fc.Op == token.LEQ && inWeb(kit.Root(fc.Y)) && kit.Same(kit.Root(fc.X), blockLen) {
 								neqAfterLoop = true
 							}
 						}
@@ -202,6 +250,26 @@ func runC15(c *kit.Ctx) {
 							if r, ok := in2.(*ssa.Return); ok {
 								okOver = !kit.IsNilConst(kit.Root(returnedError(r)))
 							}
+						}
+						if !okOver {
+							// ... possibly through the error result of a helper the loop was moved into: no way from
+							// the true edge to a return without an error
+							tb := kit.SuccOnTrue(iff)
+							e := kit.PathFrom(iff, kit.PathQuery{
+								SkipEdge: func(from, to *ssa.BasicBlock) bool { return from == iff.Block() && to != tb },
+								TargetPath: func(x ssa.Instruction, path []*ssa.BasicBlock) bool {
+									r, ok := x.(*ssa.Return)
+									if !ok {
+										return false
+									}
+									ev := returnedError(r)
+									if ev != nil {
+										ev = kit.ResolveAlong(ev, path)
+									}
+									return ev == nil || kit.IsNilConst(kit.Root(ev))
+								},
+							})
+							okOver = e == nil
 						}
 					}
 				})
@@ -217,6 +285,7 @@ func runC15(c *kit.Ctx) {
 
 	c.StartRule("R2", "every reader error is checked and returned", 5)
 	sendPathSharesNoMemory(c)
+	buffersAreFreedAfterTheWrite(c)
 	for _, fn := range nonNilFuncs(dec, readU) {
 		kit.Instrs(fn, func(in ssa.Instruction) {
 			call, ok := in.(*ssa.Call)
